@@ -29,13 +29,15 @@ var calibPath = os.Getenv("C18_CALIB")
 func init() {
 	eng.Register(&eng.Monitor{
 		ID: "C18", Level: "exploration",
-		Rule:  "cases = (kind, parameter set, input draw). kind btp: one of the named reduced-size bootstrapping parameter sets (the 8 exported defaults at log N = 10 + sets switching one circuit option: ring degree 8..11, sparse slots, N1<N2, conjugate-invariant residual ring, dense/sparse secret x ephemeral weight 0/8/32, Mod1Type, double angle 0..3, arcsine degree, DFT depth splits, EvalMod scale, auxiliary primes, circuit order, iterations with/without reserved prime, 2^80 scale); keys are generated and classified, then several calls are drawn (API, input level min..max, ciphertext slots 1..max, batch 1..4, message class up to the announced ratio, level-0 scale, ShallowCopy). kind keys: randomly drawn literals (log N 9..12), key generation + classification only. kind dft / mod1: transforms against their plaintext model. kind struct: the full-size exported defaults, parameters only. distinct key = (kind, set, API, level, slots, batch, message class, scale class, copy) resp. (set, key name, levels, classification) resp. (transform, shape); non-trivial = anything but the stock test shape (level 0, full slots, single ciphertext, unit message, default scale, original evaluator, N1 = N2), every key classification, every transform shape.",
+		Rule:  "cases = (kind, parameter set, input draw). kind btp: one of the named reduced-size bootstrapping parameter sets (the 8 exported defaults at log N = 10 + sets switching one circuit option: ring degree 8..11, sparse slots, N1<N2, conjugate-invariant residual ring, dense/sparse secret x ephemeral weight 0/8/32, Mod1Type, double angle 0..3, arcsine degree, DFT depth splits, EvalMod scale, auxiliary primes, circuit order, iterations with/without reserved prime, 2^80 scale); keys are generated and classified, then several calls are drawn (API, input level min..max, ciphertext slots 1..max, batch 1..4, message class up to the announced ratio, level-0 scale, ShallowCopy). kind keys: randomly drawn literals (log N 9..12), key generation + classification only. kind dft / mod1: transforms against their plaintext model. kind struct: the full-size exported defaults, parameters only. audit extension: every btp session adds a call with an exact power-of-two non-default scale at level >= 1 or a chain Bootstrap(DropLevel(Bootstrap(ct))), offers NewEvaluator a bundle lacking one non-Galois member, round-trips the parameters object and (conjugate-invariant sets) ComplexToRealNew(RealToComplexNew(ct)); kind steps: ScaleDown, ModUp, CoeffsToSlots, EvalMod / EvalModAndScale(s), SlotsToCoeffs called one by one (levels after every step, bit-identical to Evaluate on a ShallowCopy, s*message on an evaluator built from transported parameters and keys); kind pack: PackAndSwitchN1ToN2 / UnpackAndSwitchN2ToN1 called directly (identity, shapes, bit-identical to BootstrapMany; original, copy, copy of a copy); kind dftx: CoeffsToSlots after SlotsToCoeffs, caller-provided dirty receivers used twice vs the allocating variants, input one level above MatrixLiteral.LevelQ (log N 4..8); kind mod1x: EvaluateAndScaleNew with real / negative / complex factors, ParametersLiteral.Scaling, input above LevelQ. distinct key = (kind, set, API, level, slots, batch, message class, scale class, copy) resp. (set, key name, levels, classification) resp. (transform, shape) resp. (steps|pack|dftx|mod1x, set, variant, level, slots, batch, factor); non-trivial = anything but the stock test shape (level 0, full slots, single ciphertext, unit message, default scale, original evaluator, N1 = N2), every key classification, every transform shape.",
 		Cases: cases,
 		Assumptions: []string{
 			"precision floors are measured on the unchanged tree (max over calibration runs) and frozen; verdict threshold = floor + 6 bits + 25% of the documented sin distortion of the message",
 			"K-1 >= 8.5 standard deviations of the integer part for every set, so the (announced, negligible) failure probability of the modular reduction is ignored",
 			"key classification uses lattigo's NTT/Montgomery kernels (judged by C01) on P-prime residues; worst-case error bound floor(6 sigma + 1/2)",
 			"full-size defaults (log N 15/16) are checked structurally only: their keys need tens of GB",
+			"homomorphic evaluation is deterministic: two evaluators holding the same keys return bit-identical ciphertexts for the same input (used as differential oracle for the step-by-step circuit, packing and caller-provided receivers)",
+			"EvalModAndScale / EvaluateAndScaleNew / ParametersLiteral.Scaling by a factor s: threshold of the set times max(1,|s|)",
 		},
 	})
 }
@@ -73,12 +75,32 @@ func cases(tier string, seed int64) []eng.Case {
 	out = append(out, dftCases(tier, r)...)
 	out = append(out, mod1Cases(tier, r)...)
 	out = append(out, structCases()...)
+	if calibPath == "" {
+		// coverage-audit extension families (own random stream: the draws above are unchanged)
+		xr := eng.NewRand("c18-cases-audit", seed)
+		out = append(out, stepsCases(tier)...)
+		out = append(out, dftExtCases(tier, xr)...)
+		out = append(out, mod1ExtCases(tier)...)
+	}
 	if only := os.Getenv("C18_ONLY"); only != "" && calibPath != "" {
 		// calibration aid: restrict to one kind
 		var f []eng.Case
 		for _, cs := range out {
 			if strings.HasPrefix(cs.ID, only) {
 				f = append(f, cs)
+			}
+		}
+		out = f
+	}
+	if only := os.Getenv("C18_CASES"); only != "" {
+		// debugging / mutation-check aid: comma-separated case-id prefixes (unset in normal runs)
+		var f []eng.Case
+		for _, cs := range out {
+			for _, p := range strings.Split(only, ",") {
+				if strings.HasPrefix(cs.ID, p) {
+					f = append(f, cs)
+					break
+				}
 			}
 		}
 		out = f
@@ -121,6 +143,21 @@ func runBtp(c *eng.Ctx, cf cfg, idx, nIn int) {
 	// a bundle with one Galois key removed must be refused with an error by NewEvaluator (not a panic)
 	if idx == 0 {
 		s.checkMissingKeyReported()
+	}
+	// ---- coverage-audit extension (after everything else: the original draws are unchanged)
+	xr := c.Rand().Sub("audit-ext", idx)
+	for _, in := range s.drawExtInputs(xr, c.Tier == "thorough") {
+		if in.Chain {
+			s.runChain(in)
+		} else {
+			s.run(in)
+		}
+	}
+	if idx == 0 {
+		s.checkMissingMemberReported(xr, c.Tier == "thorough")
+	}
+	if s.ci {
+		s.checkRingSwapRoundTrip(xr)
 	}
 }
 
